@@ -39,6 +39,8 @@ def generate(prop, rng):
         "batch": 999 if big else rng.choice([2, 3, 7, 999]),
         "big": big,
         "reflink": "enotsup",
+        # workspace entries that are symbolic links to files kept elsewhere (edits go to the target)
+        "symlinked": [] if big else [i for i in range(nfiles) if rng.random() < 0.15],
     }
     ops = []
     nsteps = rng.randint(3, 8) if big else rng.randint(5, 25)
@@ -47,7 +49,7 @@ def generate(prop, rng):
         if o == "mutate":
             ops.append({"op": o, "file": rng.randrange(nfiles),
                         "how": rng.choice(["write", "same_len", "diff_len", "append", "replace", "replace_same_len", "touch", "delete",
-                                           "recreate", "empty", "restore_old_stat", "restore_old_stat"]),
+                                           "recreate", "empty", "restore_old_stat", "restore_old_stat", "replace_keep_mtime"]),
                         "tag": rng.randrange(100)})
         elif o == "clock":
             if rng.random() < 0.25:
@@ -127,12 +129,18 @@ def execute(sc, ctx):
     def path(i):
         return os.path.join(ws, files[i])
 
+    symlinked = set(cfg.get("symlinked", []))
+
+    def mp(i):
+        """Where the bytes of file i live: the link's target for a symlinked entry."""
+        return w.p("ext", f"t{i}") if i in symlinked else path(i)
+
     def token(p):
         st = REAL["os.stat"](p)
         return (st.st_ino, st.st_mtime, st.st_size)
 
     def write(i, data, how="write"):
-        p = path(i)
+        p = mp(i)
         if how in ("same_len", "diff_len", "append") and cur.get(i) is not None:
             with REAL["open"](p, "r+b") as f:
                 if how == "append":
@@ -164,6 +172,10 @@ def execute(sc, ctx):
 
     for i in range(len(files)):
         write(i, fresh(0) if not cfg["big"] else b"%d" % (i % 7))
+        if i in symlinked:
+            w.mkdirs(os.path.dirname(path(i)))
+            REAL["os.symlink"](mp(i), path(i))
+            ctx.probe("symlinked_workspace_entry")
     ctx.clock.advance(10**9)
 
     def note_saved(paths):
@@ -228,20 +240,36 @@ def execute(sc, ctx):
             if how == "delete":
                 if cur.get(i) is not None:
                     REAL["os.unlink"](path(i))
+                    symlinked.discard(i)  # from now on a plain path
                     cur[i] = None
                     versions.pop(i, None)
             elif how == "recreate":
                 if cur.get(i) is not None:
                     REAL["os.unlink"](path(i))
+                    symlinked.discard(i)
                     cur[i] = None
                 versions.pop(i, None)
                 write(i, fresh(op["tag"], None))
+            elif how == "replace_keep_mtime":
+                # atomic replacement (new inode) by bytes of the SAME length carrying the SAME mtime
+                # (cp -p / rsync -t / a clock step): size and mtime are unchanged, the inode is not
+                if cur.get(i) is not None and len(cur[i]) > 0:
+                    st0 = REAL["os.stat"](mp(i))
+                    nb = fresh(op["tag"], len(cur[i]))
+                    tmp = mp(i) + ".new"
+                    with REAL["open"](tmp, "wb") as f:
+                        f.write(nb)
+                    REAL["os.utime"](tmp, ns=(st0.st_mtime_ns, st0.st_mtime_ns))
+                    REAL["os.rename"](tmp, mp(i))
+                    versions.pop(i, None)
+                    cur[i] = nb
+                    ctx.probe("replaced_with_same_size_and_mtime")
             elif how == "touch":
                 if cur.get(i) is not None:
-                    ctx.seam.stamp(path(i))
+                    ctx.seam.stamp(mp(i))
             elif how == "empty":
                 if cur.get(i) is not None:
-                    versions.setdefault(i, []).append((REAL["os.stat"](path(i)).st_mtime_ns, cur[i]))
+                    versions.setdefault(i, []).append((REAL["os.stat"](mp(i)).st_mtime_ns, cur[i]))
                     write(i, b"", "diff_len")
             elif how == "restore_old_stat":
                 # in-place rewrite with NEW bytes but the size and mtime of an EARLIER version
@@ -249,18 +277,18 @@ def execute(sc, ctx):
                 old = [v for v in versions.get(i, []) if len(v[1]) > 0]
                 if cur.get(i) is not None and old:
                     mt, ob = old[op["tag"] % len(old)]
-                    versions.setdefault(i, []).append((REAL["os.stat"](path(i)).st_mtime_ns, cur[i]))
+                    versions.setdefault(i, []).append((REAL["os.stat"](mp(i)).st_mtime_ns, cur[i]))
                     nb = fresh(op["tag"], len(ob))
-                    with REAL["open"](path(i), "r+b") as f:
+                    with REAL["open"](mp(i), "r+b") as f:
                         f.write(nb)
                         f.truncate()
-                    REAL["os.utime"](path(i), ns=(mt, mt))
+                    REAL["os.utime"](mp(i), ns=(mt, mt))
                     cur[i] = nb
                     ctx.probe("old_stat_triple_recurs")
             elif how in ("same_len", "replace_same_len"):
                 if cur.get(i) is not None:
                     if how == "same_len":
-                        versions.setdefault(i, []).append((REAL["os.stat"](path(i)).st_mtime_ns, cur[i]))
+                        versions.setdefault(i, []).append((REAL["os.stat"](mp(i)).st_mtime_ns, cur[i]))
                     write(i, fresh(op["tag"], len(cur[i])), how)
             elif how == "append":
                 write(i, fresh(op["tag"])[:3] or b"+", "append")
@@ -268,7 +296,7 @@ def execute(sc, ctx):
                 if how in ("replace",):
                     versions.pop(i, None)
                 elif cur.get(i) is not None and how in ("diff_len", "write"):
-                    versions.setdefault(i, []).append((REAL["os.stat"](path(i)).st_mtime_ns, cur[i]))
+                    versions.setdefault(i, []).append((REAL["os.stat"](mp(i)).st_mtime_ns, cur[i]))
                 write(i, fresh(op["tag"]), how)
             if had_row and cur.get(i) is not None:
                 try:
